@@ -501,7 +501,11 @@ func propC09(a *Analysis, r *Registry) {
 				X.AssumeCond(env.MustParse("len(s.Xs)==0"), false))
 			name := "stats.(Sample).Bounds/unsorted-weighted"
 			rv0, rv1 := fc.Sub(fc.RetVal(0)), fc.Sub(fc.RetVal(1))
-			if len(fc.Ctx.Loops()) == 0 || len(fc.loopPhis(rv0)) == 0 {
+			if len(fc.Ctx.Loops()) > 0 && (len(fc.loopPhis(rv0)) == 0 || len(fc.loopPhis(rv1)) == 0) {
+				r.Fail(rB, name, b.pos(fn), "the unsorted weighted scan does not carry both extremes round its loop (one of them is never updated): "+clip(rv0.String(), 80)+" / "+clip(rv1.String(), 80))
+				return
+			}
+			if len(fc.Ctx.Loops()) == 0 {
 				// the scan lives in a helper with its own loop: this rule is stated on the
 				// one-function shape (the decision above still says when the slice function is used)
 				return
